@@ -273,7 +273,13 @@ func vpRunRefreshBehaviour(w *vpWorld, mode string, stale bool, n int, steps []v
 				sc.done <- r
 				return
 			}
-			resp := inst.do(vpReq{Target: target, Cookie: cookie})
+			// a third of the proxied requests has the shape of a WebSocket handshake (Upgrade / Connection headers): the session loader treats
+			// every request alike
+			var shape [][2]string
+			if !authonly && (r+int(behaviourNo))%3 == 0 {
+				shape = [][2]string{{"Connection", "keep-alive, Upgrade"}, {"Upgrade", "websocket"}, {"Sec-WebSocket-Version", "13"}, {"Sec-WebSocket-Key", "dGhlIHNhbXBsZSBub25jZQ=="}}
+			}
+			resp := inst.do(vpReq{Target: target, Cookie: cookie, Header: shape})
 			results[r] = resp
 			gen := -1
 			served := resp.UpHits > 0
@@ -554,7 +560,11 @@ func vpRunCookieRefreshBehaviour(w *vpWorld, mode string, n int) ([]map[string]i
 			if authonly {
 				target = w.prefix() + "/auth"
 			}
-			resp := w.do(vpReq{Target: target, Cookie: cookie})
+			var shape [][2]string
+			if !authonly && r%3 == 0 {
+				shape = [][2]string{{"Connection", "keep-alive, Upgrade"}, {"Upgrade", "websocket"}, {"Sec-WebSocket-Version", "13"}, {"Sec-WebSocket-Key", "dGhlIHNhbXBsZSBub25jZQ=="}}
+			}
+			resp := w.do(vpReq{Target: target, Cookie: cookie, Header: shape})
 			gen := -1
 			served := resp.UpHits > 0
 			if authonly {
